@@ -142,6 +142,29 @@ def run_glob(tier, funcs, index, enums, res):
                          4 if tier == "quick" else 5, "".join(map(chr, c12_glob.PAT_ALPHA)), "".join(map(chr, c12_glob.SUBJ_ALPHA))))
 
 
+def run_replace(tier, funcs, index, enums, res, text):
+    import c20_replace as c20
+    res["target"] = ("normalize_options (mode and delimiter selection), CommandBuilder::execute (argv assembly with -I, classification of the child's fate), and the -I pipeline "
+                     "process_input + CommandBuilderOptions::new + CommandBuilder::{new,add_arg,execute} + MaxArgsCommandSizeLimiter + CommandResult::combine")
+    runs = [c20.explore_normalize(funcs, index, enums, text), c20.explore_execute(funcs, index, enums)]
+    runs += [c20.explore_pipeline(n, funcs, index, enums) for n in ([0, 1, 2] if tier == "quick" else [0, 1, 2, 3])]
+    for r in runs:
+        res["functions_executed"].update(r.pop("functions_executed"))
+        for v in r.pop("violations"):
+            res["violations"].append({"key": "%s | %s" % (r["kind"].split("/")[0], v["what"].split("(")[0][:60]), "summary": "%s: %s %s" % (
+                r["kind"], v["what"], {k: x for k, x in v.items() if k != "what"}), "replayer": "replace_cli", "what": v["what"], "kind": r["kind"]})
+        for k, c in r.pop("unsupported").items():
+            res["unsupported"][k] = res["unsupported"].get(k, 0) + c
+        r["bound"] = r["kind"]
+        r["inputs_covered"] = r.pop("checks")
+        res["runs"].append(r)
+    res["bounds"] = ("normalize_options: every subset of {-n, -L, -I/-i, -d, -0} in every relative order, the replace option given as -I R, -i=R or a valueless -i "
+                     "(clap's ArgMatches::indices_of modelled: indices of values, none for a valueless occurrence unless the argument declares a default_missing_value - read from "
+                     "do_xargs's MIR), -n/-L values 1..5, delimiter 1..127; execute: R in %r, two initial arguments in %r, line in %r, with and without -I, child fate symbolic "
+                     "(exit code 0..255, signal 1..64, cannot start); pipeline: %s lines over %r, R in %r, initial arguments %r, -r symbolic, per invocation exit 0 / 1..254 / 255" % (
+                         c20.REPL, c20.INIT, c20.LINES, [0, 1, 2] if tier == "quick" else [0, 1, 2, 3], c20.PIPE_LINES, c20.REPL, c20.PIPE_INIT))
+
+
 def main():
     prop, tier, out = sys.argv[1], sys.argv[2], sys.argv[3]
     t0 = time.time()
@@ -160,6 +183,8 @@ def main():
         run_readers(tier, funcs, index, enums, res)
     elif prop == "C12":
         run_glob(tier, funcs, index, enums, res)
+    elif prop == "C20":
+        run_replace(tier, funcs, index, enums, res, text)
     else:
         raise SystemExit("no MIR-level check for " + prop)
     res["functions_executed"] = sorted(res["functions_executed"])
